@@ -26,10 +26,11 @@ const (
 	badForeignTampered // log id changed on the in-memory copy (signature no longer matches either)
 	badForeignGenuine  // entry validly signed for another log id
 	badDenied          // written by an identity the destination's access controller refuses
+	badDeniedPayload   // genuine entry of a permitted writer whose payload the destination's controller refuses (a policy on the entry itself)
 	badKinds
 )
 
-var badNames = []string{"no-key", "no-signature", "signature-of-another-entry", "payload-changed", "foreign-log-id(tampered)", "foreign-log-id(genuine)", "denied-writer"}
+var badNames = []string{"no-key", "no-signature", "signature-of-another-entry", "payload-changed", "foreign-log-id(tampered)", "foreign-log-id(genuine)", "denied-writer", "denied-payload"}
 
 func orderedMapOf(es []iface.IPFSLogEntry) iface.IPFSLogOrderedEntries {
 	m := entry.NewOrderedMap()
@@ -180,6 +181,9 @@ func H_C06() {
 	if vx.Param("DENYC", 1) == 1 {
 		ac = &denyWriter{id: ids[2].ID}
 	}
+	if kind == badDeniedPayload {
+		ac = &denyPayload{p: []byte{'b', byte('0' + bad)}, inner: ac}
+	}
 	mk := func() *ipfslog.IPFSLog {
 		return newLogOpt(api, ids[0], &ipfslog.LogOptions{ID: "X", IO: io, Entries: orderedMapOf(chain[:shared]), AccessController: ac,
 			Concurrency: uint(vx.Param("CONC", 0))}) // 0 = the default (16); 1 = validation one entry at a time
@@ -226,6 +230,9 @@ func H_C06() {
 	for _, e := range entriesOf(A) {
 		vx.Assert("C06", e.GetLogID() == "X", "an entry carrying another log id is never added")
 		vx.Assert("C06", e.GetIdentity() == nil || e.GetIdentity().ID != ids[2].ID || ac == nil, "an entry of a denied writer is never added")
+		if kind == badDeniedPayload && bad >= shared {
+			vx.Assert("C06", string(e.GetPayload()) != string([]byte{'b', byte('0' + bad)}), "an entry the controller refuses is never added")
+		}
 	}
 	if err != nil {
 		// "observably unchanged" includes the future: the log behaves like a twin that never saw the merge
